@@ -97,3 +97,12 @@ func VerifAuthTypeAutoDiscover(c *Client, supported string, isEnc bool) (SMTPAut
 
 // VerifEnvelopeAddress exposes envelopeAddress.
 func VerifEnvelopeAddress(addr string) string { return envelopeAddress(addr) }
+
+// VerifSendErrorDetails returns the unexported recipient list and the number of collected errors
+// of a SendError.
+func VerifSendErrorDetails(e *SendError) ([]string, int) {
+	if e == nil {
+		return nil, 0
+	}
+	return e.rcpt, len(e.errlist)
+}
